@@ -93,7 +93,14 @@ func scenarios(tier string) []vlib.Scenario {
 		add(params{Streams: st, Pending: "none", Failure: "refused-noclose", Order: "streams-first", P: 1})
 	}
 	add(params{Streams: "up+down", Pending: "none", Failure: "cut", Order: "conn-first", P: 1})
+	// Close arrives exactly while a redial is succeeding (the broker has just answered the connect request of the new incarnation)
+	for _, st := range []string{"none", "up"} {
+		for pp := 0; pp <= 2; pp++ {
+			add(params{Streams: st, Pending: "none", Failure: "cutclose", Order: "conn-only", P: pp})
+		}
+	}
 	if tier == "thorough" {
+		add(params{Streams: "none", Pending: "none", Failure: "cutclose", Order: "conn-only", P: 3})
 		for _, s := range []string{"up", "down", "up+down"} {
 			for _, pe := range []string{"none", "read", "call", "write"} {
 				for _, f := range []string{"none", "cut"} {
@@ -113,6 +120,9 @@ func config(sc vlib.Scenario, tier string) vsched.Config {
 	cfg := vsched.Config{Preempt: 1, Switch: 1, SelCase: 1, Stall: 1, Timer: -1, Horizon: 150 * time.Second, MaxSteps: 600000}
 	cfg.Budget[vsched.BudP] = p.P
 	cfg.Scope = func(site string) bool {
+		if p.Failure == "cutclose" {
+			return strings.Contains(site, "iscp.(*Conn).reconnect") || strings.Contains(site, "iscp.(*Conn).close") || strings.Contains(site, "iscp.(*Conn).Close") || strings.Contains(site, "iscp.(*Conn).setRedialing") || strings.Contains(site, "iscp.(*Conn).redialState") || strings.Contains(site, "ConnectWithConfig.func")
+		}
 		if p.Pending == "write" && p.Order == "conn-only" && p.P >= 2 {
 			// the last flush of a stream that is closed by the connection versus the Disconnect
 			for _, s := range []string{"flushLoop", "(*Upstream).flush", "sendChunkAndWaitAck", "SendUpstreamChunk", "iscp.(*Conn).close", "wire.(*ClientConn).Close", "SendDisconnect", "h:write:client"} {
@@ -141,6 +151,8 @@ type post struct {
 }
 
 type world struct {
+	closerStarted, closerDone bool
+	liveAfterClose            int // 1 + index of an incarnation that is still connected (no Disconnect received, link up) after Conn.Close returned
 	closeReqs int
 	kit.World
 	p          params
@@ -182,6 +194,20 @@ func (w *world) script() *sim.Script {
 				return message.ResultCodeStreamNotFound
 			}
 			return message.ResultCodeSucceeded
+		}
+	}
+	if w.p.Failure == "cutclose" {
+		s.AfterSend = func(b *sim.Broker, c *sim.BConn, m message.Message) {
+			if _, ok := m.(*message.ConnectResponse); ok && c.Idx > 0 && !w.closerStarted {
+				w.closerStarted = true
+				vsched.Go("h:closer-at-redial", func() {
+					ctx, cancel := kit.Ctx(8 * time.Second)
+					err := w.Conn.Close(ctx)
+					cancel()
+					w.closeErrs = append(w.closeErrs, fmt.Sprintf("conn#0=%s", kit.ErrKind(err)))
+					w.closerDone = true
+				})
+			}
 		}
 	}
 	s.OnMessage = func(b *sim.Broker, c *sim.BConn, m message.Message) bool {
@@ -350,11 +376,20 @@ func (w *world) main() {
 	w.Phase = "failure"
 	if w.p.Failure != "none" && w.p.Failure != "closefail" && w.p.Failure != "closesilent" {
 		w.B.Cut(w.B.Live())
-		vsched.Sleep(4*time.Second, "h:outage") // detected by keep-alive, reconnect (and resume) under way
+		if w.p.Failure == "cutclose" {
+			w.Phase = "closing"
+			vsched.WaitUntil("closer-at-redial-done", func() bool { return w.closerDone })
+		} else {
+			vsched.Sleep(4*time.Second, "h:outage") // detected by keep-alive, reconnect (and resume) under way
+		}
 	}
 	w.Phase = "closing"
 	bg := vcontext.Background()
-	switch w.p.Order {
+	order := w.p.Order
+	if w.p.Failure == "cutclose" {
+		order = "done-already"
+	}
+	switch order {
 	case "streams-first":
 		w.closeStreams("first")
 		w.closeOne("conn", func(ctx context.Context) error { return w.Conn.Close(ctx) })
@@ -371,6 +406,10 @@ func (w *world) main() {
 		w.closeOne("conn", func(ctx context.Context) error { return w.Conn.Close(ctx) })
 	}
 	w.dialsAtClose = w.B.Dials
+	vsched.Quiesce()
+	if l := w.B.Live(); l != nil && l.Connect != nil && l.Disconnect == nil {
+		w.liveAfterClose = l.Idx + 1
+	}
 	w.Phase = "post"
 	// every API once more on the closed objects
 	w.postStreams()
@@ -493,6 +532,9 @@ func run(sc vlib.Scenario, cfg vsched.Config) (*vsched.Result, vlib.Verdict) {
 				v.Fail("C10.after-disconnect", kit.MsgName(e.Msg)+fmt.Sprintf("/dev=%v", dev), "%s reached the broker after the Disconnect on incarnation %d", kit.MsgName(e.Msg), c.Idx)
 			}
 		}
+	}
+	if w.liveAfterClose > 0 {
+		v.Fail("C10.left-open", fmt.Sprintf("%s/dev=%v", w.p.Failure, dev), "Conn.Close returned (%v) but incarnation %d is still connected: no Disconnect was sent and the link was not closed", w.closeErrs, w.liveAfterClose-1)
 	}
 	if w.B.Dials > w.dialsAtClose {
 		v.Fail("C10.redial", w.p.Failure, "the client dialled again (%d -> %d attempts) after Conn.Close returned", w.dialsAtClose, w.B.Dials)
